@@ -7,7 +7,11 @@ from vlib import core
 from vlib import symbols as S
 
 
-def run(tier, seed):
+def targets(flavour="plain"):
+    return [core.Target("c06_dims", [os.path.join(dumpbase.MON, "c06_dims.cpp")], flavour=flavour, include_gen=False)]
+
+
+def run(tier, seed, flavour="plain"):
     V = core.Verdict("C06", tier, seed)
     V.assumptions = [
         "the atom table of vlib/symbols.py gives the correct base-dimension vector of every unit atom",
@@ -15,8 +19,7 @@ def run(tier, seed):
         "Θ is the printed symbol of the temperature dimension (property text)",
     ]
     od = core.run_dir("C06", tier)
-    mon = core.Target("c06_dims", [os.path.join(dumpbase.MON, "c06_dims.cpp")], include_gen=False)
-    paths = core.build([mon, dumpbase.dump_target()])
+    paths = core.build(targets(flavour) + [dumpbase.dump_target()])
     d, crash = dumpbase.get_dump()
     if crash:
         V.add_violation("crash|dump|" + core.classify_crash(crash["rc"], crash["stderr_tail"]), crash)
@@ -78,7 +81,8 @@ def run(tier, seed):
         V.add_violation("C06|dimensionless|print", {"got": d["dimensionless_print"]})
     # (3) printing / ordering / hash on exponent boxes: the C++ monitor
     res = core.run_sharded([{"name": "c06_dims", "binary": paths["c06_dims"], "nshards": core.NCPU, "out": od,
-                             "args": ["--seed", str(seed), "--tier", tier]}])
+                             "args": ["--seed", str(seed), "--tier", tier],
+                             "env": core.SAN_ENV if flavour == "san" else None}])
     V.absorb(res)
     m = core.merge_summaries(res)
     n_units = sum(len(u["enumerators"]) for u in d["unit_types"])
